@@ -105,11 +105,32 @@ def block_heavy(draw, enc):
     return items
 
 
+# small modules that make an encoder give up part-way, one refusal site each (which
+# of them a given encoder refuses depends on the dialect)
+PROVOKERS = [
+    [["A", {"set": [1.5]}]], [["A", {"set": ["it's"]}]], [["A", {"set": ["a\nb"]}]],
+    [["A", {"seq": [{"seq": [{"seq": [1]}]}]}]],
+    [["A", {"q": [1, "bad unit!"]}]], [["A", {"q": ["s", "m"]}]], [["A", "\u00e9"]],
+    [["A", "both ' and \""]], [["A", "x\"\n"]], [["a-b", 1]], [["A" * 31, 1]],
+    [["A", {"time": [1, 2, 3, 0, None]}]], [["A", {"time": [1, 2, 3, 7, 0]}]],
+    [["A", {"time": [1, 2, 3, 0, 90]}]], [["A", float("inf")]],
+    [["A", {"dt": [2001, 1, 1, 1, 2, 3, 7, 60]}]],
+    [["g", {"grp": [["h", {"grp": [["x", 1]]}]]}]], [["g-", {"grp": [["x", 1]]}]],
+    [["A", 1], ["B", "AB CD"], ["C", {"set": ["q r", 2.5]}]],
+    [["A", "\x01"]], [["A", {"q": [1, "m**x"]}]],
+]
+
+
 def cases(enc):
     spec = st.one_of(gv.modules(enc), gv.modules(enc), gv.modules(enc),
                      block_heavy(enc), block_heavy(enc))
     return st.fixed_dictionaries({
         "enc": st.just(enc), "cfg": c01.cfgs(enc), "spec": spec,
+        # unrelated modules (many of which the encoder refuses part-way) that the
+        # same instance writes between the calls of the interleaved style
+        "others": st.lists(st.one_of(st.sampled_from(PROVOKERS),
+                                     st.sampled_from(PROVOKERS), gv.modules(enc)),
+                           min_size=1, max_size=3),
         "style": st.sampled_from(["instance", "instance-interleaved",
                                   "instance-interleaved", "dumps-fresh",
                                   "dumps-default"])})
@@ -120,6 +141,7 @@ def run_case(case):
     m = gv.build_module(case["spec"])
     before, ids = snap(m)
     encoder = make_encoder(enc, **cfg)
+    unrelated = [gv.build_module(o) for o in case.get("others", [])]
     texts = []
     for call in range(3):
         try:
@@ -130,7 +152,7 @@ def run_case(case):
                     # between the calls the same encoder writes other modules that
                     # share block objects with *m*: only its blocks, and m plus an
                     # OBJECT of its own
-                    for other in interleaved_modules(m):
+                    for other in interleaved_modules(m) + unrelated:
                         try:
                             encoder.encode(other)
                         except (ValueError, TypeError):
